@@ -975,6 +975,17 @@ def replay(prop, payload):
     from incomplete_cooperative.shapley import compute_shapley_value, compute_shapley_value_for_player
     StubGame, _ = make_stubs()
     x = payload["input"]
+    key = payload.get("key") or ""
+    if any(t in key for t in ("tiny-magnitude", "re-entrancy", "threads", "every-n", "large-n")) or not ("values" in x or "known" in x):
+        # the probes with closed-form oracles are re-run as a whole (their inputs are drawn inside the probe)
+        res_ = StreamResult("replay")
+        import random as _random
+        for seed_ in range(3):
+            shapley_special_probes(res_, _random.Random(seed_), prop)
+        every_n_shapley(res_, _random.Random(0), range(16, 6, -1))
+        if res_.violations:
+            return True, "reproduced on the real code (probe re-run): " + res_.violations[0]["what"][:300]
+        return False, "the probes (tiny magnitude, re-entrant game, two threads, every player count) pass on the real code"
     n = int(x["n"])
     N = 2 ** n
     F = Fraction
